@@ -14,11 +14,12 @@ from .c02 import after_list_removal  # noqa: F401
 from .c07 import blocks_of, compare_output
 
 ID = "C16"
+VARY_KNOBS = True  # module-level tuning constants of the library are lowered in some runs (sim.core.lower_tuning_constants)
 VARY_ARGFORM = True  # integer call arguments also arrive as numpy integer scalars
 GUARD_KERNELS = True
 SHRINK_LISTS = ("ops", "faults", "ranges", ("files", "nsamps"))
 SHRINK_MIN = {"nchans": 2, "nbits": 1, "gulp": 1}
-SHRINK_SIMPLE = {"argform": "int", "refused_first": None}
+SHRINK_SIMPLE = {"knobs": None, "argform": "int", "refused_first": None}
 FCH1, FOFF = 1500.0, -0.5
 BANDS = [(1500.0, -0.5), (1581.804688, -0.390625), (1400.1, 0.3)]  # float32-exact and not
 
@@ -88,6 +89,20 @@ def generate(rng, tier) -> dict:
                 ops.append({"op": "apply_method", "method": rng.choice(["mad", "iqrm"])})
             else:
                 ops.append({"op": "apply_funcn", "fn": rng.choice(["identity", "none", "every3", "first", "last"])})
+        def one_op():
+            k = rng.random()
+            if k < 0.4:
+                return {"op": "apply_mask", "ranges": gen_ranges(rng, nchans, band)}
+            if k < 0.75:
+                return {"op": "apply_method", "method": rng.choice(["mad", "iqrm"])}
+            return {"op": "apply_funcn", "fn": rng.choice(["identity", "none", "every3", "first", "last"])}
+
+        if rng.random() < 0.3:
+            # a SECOND mask object derived from this one in mid-history (a what-if at another threshold, a snapshot
+            # kept before going on, a mask rebuilt from the arrays of another) and worked on; the two are
+            # independent objects from then on
+            ops.insert(rng.randint(0, len(ops)), {"op": "derive", "how": rng.choice(["evolve", "copy", "ctor", "deepcopy"]),
+                                                  "threshold": rng.choice([3.0, 2.0, 5.0, 1.5]), "sub": [one_op() for _ in range(rng.randint(1, 2))]})
         return {"kind": "mask", "nchans": nchans, "band": list(band), "threshold": rng.choice([3.0, 2.0, 5.0, 1.5]), "stats": stats, "family": fam, "ops": ops, "faults": []}
     nbits = rng.choice([1, 2, 4, 8, 8, 32])
     nchans = rng.choice([c for c in (2, 4, 8, 12, 16) if (c * nbits) % 8 == 0])
@@ -256,6 +271,20 @@ def exec_mask(sc, ctx) -> None:
     ALL = np.zeros(n, dtype=bool)
     last = {"user": np.zeros(n, dtype=bool), "stats": np.zeros(n, dtype=bool), "custom": np.zeros(n, dtype=bool)}
     freqs32 = np.asarray(hdr.chan_freqs, dtype=np.float32)
+    derived = []  # (object, its own model {ALL, user, stats, custom}, how)
+
+    def masks_of(obj):
+        return {"chan": np.array(obj.chan_mask, dtype=bool), "user": np.array(obj.user_mask, dtype=bool),
+                "stats": np.array(obj.stats_mask, dtype=bool), "custom": np.array(obj.custom_mask, dtype=bool)}
+
+    def check_derived(when):
+        for obj, mod, how in derived:
+            g = masks_of(obj)
+            for k, want_k in (("chan", mod["ALL"]), ("user", mod["user"]), ("stats", mod["stats"]), ("custom", mod["custom"])):
+                if not np.array_equal(g[k], want_k):
+                    raise Violation(f"C16/derived-mask/{k}-mask-changed-by-an-operation-on-another-object", f"{how}: {when}: got {np.nonzero(g[k])[0].tolist()} want {np.nonzero(want_k)[0].tolist()}",
+                                    {"api": "derive", "how": how, "nchans": n})
+
     for i, op in enumerate(sc["ops"]):
         prev = np.array(m.chan_mask).copy()
         info = {"api": op["op"], "op_index": i, "nchans": n, "threshold": thr, **{k: v for k, v in op.items() if k != "op"}}
@@ -263,6 +292,50 @@ def exec_mask(sc, ctx) -> None:
         def mk(clause, detail):
             return Violation(f"C16/{op['op']}/{clause}", detail, info)
 
+        if op["op"] == "derive":
+            import copy as _copy
+
+            import attrs as _attrs
+
+            how, thr2 = op["how"], float(op["threshold"])
+            before = masks_of(m)
+            try:
+                if how == "evolve":
+                    d = _attrs.evolve(m, threshold=thr2)
+                elif how == "copy":
+                    d, thr2 = _copy.copy(m), thr
+                elif how == "deepcopy":
+                    d, thr2 = _copy.deepcopy(m), thr
+                else:
+                    d = RFIMask(thr2, hdr, st["mean"], st["var"], st["skew"], st["kurt"], st["maxima"], st["minima"],
+                                chan_mask=m.chan_mask, user_mask=m.user_mask, stats_mask=m.stats_mask, custom_mask=m.custom_mask)
+            except Exception as e:  # noqa: BLE001 - making the second object is context: if the library does not support this way, nothing is judged
+                ctx.observations[f"derive-{how}-raised:{type(e).__name__}"] += 1
+                continue
+            mod = {"ALL": ALL.copy(), "user": last["user"].copy(), "stats": last["stats"].copy(), "custom": last["custom"].copy()}
+            for sub in op["sub"]:
+                if sub["op"] == "apply_mask":
+                    w = model_user(freqs32, sub["ranges"], ctx, band)
+                    d.apply_mask([tuple(r) for r in sub["ranges"]])
+                    mod["user"] = w
+                elif sub["op"] == "apply_method":
+                    w = model_stats([st["var"], st["skew"], st["kurt"]], sub["method"], thr2)
+                    d.apply_method(sub["method"])
+                    mod["stats"] = w
+                else:
+                    w = custom_fn(sub["fn"])(mod["ALL"].copy())
+                    d.apply_funcn(custom_fn(sub["fn"]))
+                    mod["custom"] = w
+                mod["ALL"] = mod["ALL"] | w
+            derived.append((d, mod, how))
+            check_derived("right after its own operations")
+            after = masks_of(m)
+            for k in before:
+                if not np.array_equal(before[k], after[k]):
+                    raise mk(f"{k}-mask-changed-by-an-operation-on-another-object", f"{how}: original had {np.nonzero(before[k])[0].tolist()}, now {np.nonzero(after[k])[0].tolist()}")
+            ctx.probe("second-mask-object-derived:" + how)
+            ctx.log("derive", i, how, np.packbits(after["chan"]).tobytes().hex())
+            continue
         if op["op"] == "apply_mask":
             want = model_user(freqs32, op["ranges"], ctx, band)
             m.apply_mask([tuple(r) for r in op["ranges"]])
@@ -289,6 +362,7 @@ def exec_mask(sc, ctx) -> None:
             extra = np.nonzero(got["chan"] & ~ALL)[0].tolist()
             miss = np.nonzero(~got["chan"] & ALL)[0].tolist()
             raise mk("chan-mask-is-not-the-union", f"extra {extra} missing {miss}")
+    check_derived("after the original's later operations")
     if ALL[0]:
         ctx.probe("mask-touches-first-channel")
     if ALL[-1]:
